@@ -429,14 +429,17 @@ def unbox : SV → SV
 
 def decimalNat (n : Nat) : Str := C06.Spec.decimalStr n
 
+/-- l.198-209 / ES5 Str step 2: an object whose `toJSON` is callable is replaced by the call's result -/
+def viaToJSON : SV → SV
+  | .tojson r => r
+  | v => v
+
 mutual
 /-- builtinJSONStringifyWalk (l.195).  `depth` = number of enclosing containers on ctx.stack. -/
 def walk (C : MCtx) : Nat → Nat → Str → SV → WR GV
   | 0, _, _, _ => .oof
   | fuel + 1, depth, key, v0 =>
-    let v1 := match v0 with            -- l.198-209: toJSON
-      | .tojson r => r
-      | v => v
+    let v1 := viaToJSON v0             -- l.198-209: toJSON
     let v2 := match C.repl with        -- l.211
       | some f => f key v1
       | none => v1
